@@ -137,6 +137,28 @@ func checkC07(c *hx.Checker) {
 			}
 		}
 	}
+	// larger shapes beyond the exhaustive box
+	for _, sh := range [][]int{{4, 5, 6}, {7, 1, 9}, {2, 3, 4, 5, 6}, {64}, {1, 128}} {
+		data := ref.Distinct(ref.F32, sh)
+		n := int64(ref.NElem(sh))
+		for _, t := range [][]int64{{-1}, {n}, {2, -1}, {0, -1}, {-1, int64(sh[len(sh)-1])}, {n, 1, 1}, {3, -1}, {n + 1}} {
+			exp, err := ref.Reshape(data, t)
+			add("Reshape", nil, []*ref.T{data, ref.I64Vec(t...)}, exp, err, "op", nil, true, "large"+fmt.Sprint(t), "large")
+		}
+		for ax := -len(sh); ax <= len(sh); ax++ {
+			exp, err := ref.Flatten(data, ax)
+			add("Flatten", []hx.Attr{hx.AInt("axis", int64(ax))}, []*ref.T{data}, exp, err, "op", nil, true, fmt.Sprintf("large axis=%d", ax), "large")
+		}
+		for _, ax := range [][]int64{{0}, {-1}, {1, 0}, {int64(len(sh))}, {0, int64(len(sh)) + 1}} {
+			exp, err := ref.Unsqueeze(data, ax)
+			add("Unsqueeze", nil, []*ref.T{data, ref.I64Vec(ax...)}, exp, err, "op", nil, true, "large"+fmt.Sprint(ax), "large")
+			exps, errs := ref.Squeeze(data, ax, true)
+			add("Squeeze", nil, []*ref.T{data, ref.I64Vec(ax...)}, exps, errs, "op", nil, true, "large"+fmt.Sprint(ax), "large")
+		}
+		exps, errs := ref.Squeeze(data, nil, false)
+		add("Squeeze", nil, []*ref.T{data, nil}, exps, errs, "op", nil, true, "large axes-absent", "large")
+		add("Shape", nil, []*ref.T{data}, ref.ShapeOf(data), nil, "op", nil, true, "large", "large")
+	}
 	runOpJobs(c, jobs)
 	runReuseJobs(c, jobs)
 }
